@@ -586,7 +586,35 @@ fn r_template_fix_cli(lang: SupportLang, src: &str, pat: &str, tmpl: &str) -> Op
   Some((json!({"single": single, "multi": [], "trans": []}), json!(hex(rep.as_bytes())), start))
 }
 
+/// "literal template text is copied unchanged": a template without any `$` is its own expansion, in
+/// every language — also when it contains the character the language uses internally for meta
+/// variables (`_` in C / C++ / CSS, `z` in HTML, `µ` elsewhere) in front of capital letters
+fn template_literals(o: &mut Out) {
+  let literals = [
+    "MAX_BUF_SIZE", "__func__()", "a_B + _C", "var(--theme_Main, red)", "get_Name(x)", "zA zB zzZ", "µA µ_ µµµ", "plain text, no variables", "_", "__A",
+    "é 中 𝒳_X", "CHECK_X(compute(total), 0);",
+  ];
+  let mut cases = 0usize;
+  for l in SupportLang::all_langs() {
+    let grep = l.ast_grep("a");
+    let nm: ast_grep_core::NodeMatch<ast_grep_core::StrDoc<SupportLang>> = grep.root().into();
+    for t in literals {
+      cases += 1;
+      let r = guard(|| {
+        let fix = TemplateFix::try_new(t, l).expect("template");
+        json!(String::from_utf8_lossy(&fix.generate_replacement(&nm)).to_string())
+      });
+      if r != json!(t) {
+        o.oracle("template-literal", false, json!({"fp": format!("fix template: text without a variable is not copied unchanged, expando={}", l.expando_char()),
+          "lang": l.to_string(), "template": t, "replacement": r}));
+      }
+    }
+  }
+  o.oracle("template-literal", true, json!({"cases": cases}));
+}
+
 pub fn template_fix(ctx: &Ctx, rng: &mut Rng, o: &mut Out) {
+  template_literals(o);
   let mut cli_budget: usize = if ctx.thorough { 600 } else { 80 };
   let mut cli_tick = 0usize;
   let indents: &[usize] = if ctx.thorough { &[0, 1, 2, 3, 4, 5, 6, 7, 8, 9, 10, 11, 12] } else { &[0, 1, 2, 3, 4, 6, 8, 12] };
